@@ -360,12 +360,16 @@ impl EigenTrustEngine {
             }
         }
 
-        // Apply multi-factor trust adjustments
+        // Apply multi-factor trust adjustments. A node without recorded statistics is
+        // treated as a node with default (empty) statistics, so that the first report
+        // about it moves its factor in the direction of the report.
+        let default_factor = self.compute_multi_factor_adjustment(&NodeStatistics::default());
         for (node, trust) in trust_vector.iter_mut() {
-            if let Some(stats) = node_stats.get(node) {
-                let factor = self.compute_multi_factor_adjustment(stats);
-                *trust *= factor;
-            }
+            let factor = node_stats
+                .get(node)
+                .map(|stats| self.compute_multi_factor_adjustment(stats))
+                .unwrap_or(default_factor);
+            *trust *= factor;
         }
 
         // Apply time decay
